@@ -125,7 +125,7 @@ type world struct {
 	authGood, authBad, authTwice erpc.Peer
 
 	secSrv, secGood, secBad erpc.Peer
-	lsg, lsb                 *bed.Link
+	lsg, lsb                *bed.Link
 
 	icSrv erpc.Peer
 	lic   *bed.Link
@@ -133,14 +133,14 @@ type world struct {
 	bindSrv erpc.Peer
 	lbind   *bed.Link
 
-	hbPing    [2]erpc.Peer
-	hbPong    [2]erpc.Peer
-	hbCount   [2]*hbCounter
-	hbWaited  bool
-	hbManual  erpc.Peer
-	lhb       *bed.Link
-	deadAddr  string
-	planN     int64
+	hbPing   [2]erpc.Peer
+	hbPong   [2]erpc.Peer
+	hbCount  [2]*hbCounter
+	hbWaited bool
+	hbManual erpc.Peer
+	lhb      *bed.Link
+	deadAddr string
+	planN    int64
 }
 
 func newWorld(r *core.Rand) *world {
@@ -355,9 +355,9 @@ func severPending(w *world, reset bool) stepResult {
 	why := pxy.Await(cmd.Done(), watchdog)
 	close(p.Park)
 	if why != "" {
-		return stepResult{note: why, async: true}
+		return stepResult{note: why}
 	}
-	return stepResult{effective: cmd.Status().Code() != 0, async: true, note: cmd.Status().String()}
+	return stepResult{effective: cmd.Status().Code() != 0, note: cmd.Status().String()}
 }
 
 func stepSeverPendingEOF(w *world) stepResult   { return severPending(w, false) }
@@ -424,7 +424,7 @@ func stepVetoAccept(w *world) stepResult {
 		drop(l)
 		return eff(false, "connection accepted")
 	}
-	return stepResult{effective: strings.Contains(err.Error(), "4033"), async: true, note: err.Error()}
+	return stepResult{effective: strings.Contains(err.Error(), "4033"), note: err.Error()}
 }
 
 func stepDialFailed(w *world) stepResult {
@@ -509,7 +509,7 @@ func proxyCallDown(w *world, mc bool) stepResult {
 	tr, s := call(t.CP.A, "/a/echo", []byte("x"), nil)
 	tr2, s2 := call(t.CP.A, "/b/echo", []byte("x"), nil)
 	w.dropTopo(mc)
-	return stepResult{effective: s == "" && tr.Code != 0 && s2 == "" && tr2.Code == 0, async: true, note: fmt.Sprint(how, tr, s)}
+	return stepResult{effective: s == "" && tr.Code != 0 && s2 == "" && tr2.Code == 0, note: fmt.Sprint(how, tr, s)}
 }
 
 func proxyPushDown(w *world, mc bool) stepResult {
@@ -524,7 +524,7 @@ func proxyPushDown(w *world, mc bool) stepResult {
 	code := atomic.LoadInt32(&t.Fw[0].LastPushCode)
 	pxy.Settle(2*time.Second, 2, nil) // the plug-in finishes the push after the forwarder returned
 	w.dropTopo(mc)
-	return stepResult{effective: ok && code != 0, async: true, note: fmt.Sprintf("%s: forwarder push returned code %d", how, code)}
+	return stepResult{effective: ok && code != 0, note: fmt.Sprintf("%s: forwarder push returned code %d", how, code)}
 }
 
 func proxyCallCutMid(w *world, mc bool) stepResult {
@@ -550,9 +550,9 @@ func proxyCallCutMid(w *world, mc bool) stepResult {
 	close(p.Park)
 	w.dropTopo(mc)
 	if why != "" {
-		return stepResult{note: why, async: true}
+		return stepResult{note: why}
 	}
-	return stepResult{effective: cmd.Status().Code() != 0, async: true, note: cmd.Status().String()}
+	return stepResult{effective: cmd.Status().Code() != 0, note: cmd.Status().String()}
 }
 
 func proxyPushCutMid(w *world, mc bool) stepResult {
@@ -578,7 +578,7 @@ func proxyPushCutMid(w *world, mc bool) stepResult {
 	close(p.Park)
 	pxy.Settle(2*time.Second, 2, nil)
 	w.dropTopo(mc)
-	return stepResult{effective: ok && st2.OK(), async: true}
+	return stepResult{effective: ok && st2.OK()}
 }
 
 func stepProxyBackend1xx(w *world) stepResult {
@@ -657,7 +657,7 @@ func stepAuthAccept(w *world) stepResult {
 	}
 	tr, s := call(sess, "/a/tbytes", []byte("x"), nil)
 	go sess.Close()
-	return stepResult{effective: s == "" && tr.Code == 0, async: true, note: fmt.Sprint(tr, s)}
+	return stepResult{effective: s == "" && tr.Code == 0, note: fmt.Sprint(tr, s)}
 }
 
 func stepAuthReject(w *world) stepResult {
@@ -669,7 +669,7 @@ func stepAuthReject(w *world) stepResult {
 		go sess.Close()
 		return eff(false, "accepted")
 	}
-	return stepResult{effective: true, async: true, note: st.String()}
+	return stepResult{effective: true, note: st.String()}
 }
 
 func stepAuthMisuse(w *world) stepResult {
@@ -678,7 +678,7 @@ func stepAuthMisuse(w *world) stepResult {
 	}
 	_, st1 := w.authTwice.Dial(w.authSrv.Addr(), raw)
 	_, st2 := w.authGood.Dial(w.authSrv2.Addr(), raw)
-	return stepResult{effective: !st1.OK() && !st2.OK(), async: true, note: fmt.Sprint(st1, " / ", st2)}
+	return stepResult{effective: !st1.OK() && !st2.OK(), note: fmt.Sprint(st1, " / ", st2)}
 }
 
 // overloader steps: a fresh server per step (its slot accounting is the business of C18)
@@ -706,7 +706,7 @@ func stepOverloadConn(w *world) stepResult {
 		drop(l)
 	}
 	go srv.Close()
-	return stepResult{effective: strings.Contains(rejected, "overload"), async: true, note: rejected}
+	return stepResult{effective: strings.Contains(rejected, "overload"), note: rejected}
 }
 
 func overloadQPS(w *world, push bool) stepResult {
@@ -728,7 +728,7 @@ func overloadQPS(w *world, push bool) stepResult {
 	}
 	drop(l)
 	go srv.Close()
-	return stepResult{effective: push || rejected > 0, async: true, note: fmt.Sprint("rejected ", rejected)}
+	return stepResult{effective: push || rejected > 0, async: push, note: fmt.Sprint("rejected ", rejected)}
 }
 
 // secure steps
@@ -890,7 +890,7 @@ func stepHeartbeatBadRate(w *world) stepResult {
 	}
 	t, s := call(l.A, heartbeat.HeartbeatServiceMethod, nil, new(struct{}), erpc.WithSetMeta("hb_", "not-a-number"))
 	drop(l)
-	return stepResult{effective: s == "" && t.Code == 400, async: true, note: fmt.Sprint(t, s)}
+	return stepResult{effective: s == "" && t.Code == 400, note: fmt.Sprint(t, s)}
 }
 
 func stepHeartbeatWait(w *world) stepResult {
@@ -905,7 +905,7 @@ func stepHeartbeatWait(w *world) stepResult {
 	ok := bed.WaitUntil(8*time.Second, func() bool {
 		return atomic.LoadInt64(&w.hbCount[0].n) > n0[0] && atomic.LoadInt64(&w.hbCount[1].n) > n0[1]
 	})
-	return stepResult{effective: ok, async: true}
+	return stepResult{effective: ok}
 }
 
 func steps() []stepDef {
@@ -1240,7 +1240,7 @@ func (m *monitor) check(w *world, hid string, desc interface{}, stepClass string
 type discard struct{}
 
 func (discard) Output(calldepth int, msgBytes []byte, loggerLevel erpc.LoggerLevel) {}
-func (discard) Flush() error                                                     { return nil }
+func (discard) Flush() error                                                        { return nil }
 
 func main() {
 	flag.Parse()
